@@ -289,3 +289,10 @@ def recognisable_scales():
             d = set(spell_scale(nt, DESCENDING_PATTERNS[cls])) if cls in DESCENDING_PATTERNS else a
             out.append((nt + " " + label, a, d))
     return out
+
+
+# strings that are never a name / key / shorthand and that carry characters with a meaning to string formatting, to regular
+# expressions or to line handling: a refusal has to come as the documented error whatever the text contains
+HOSTILE_STRINGS = ["{", "}", "{}", "{0}", "{key}", "C{", "c}", "C{0}", "%", "%s", "%d", "%(k)s", "C%s", "c%d", "C%", "\\", "C\\",
+                   "C\x00", "\x00C", "C'", 'C"', "C*", "C+", "C.", "(C)", "[C]", "C|", "^C", "C$", "C\n", "c\n", "C\r", "C\r\n",
+                   "C\n#", "C#\n", "Cb\n", "C\x0b", "C\x0c", "C\u2028", "C\u00a0", "\ufeffC"]
